@@ -89,9 +89,14 @@ def translate():
     texts = [ast.unparse(s) for s in ni]
     need(len(texts) >= 6 and texts[0].startswith("assert self.root_path is not None"), "_new_import: head changed")
     need(texts[1] == "current_namespace = self._namespace_stack[-1]", "_new_import: current namespace changed")
-    need(texts[2] == ("if '.' in current_namespace:\n"
-                      "    root_namespace = current_namespace.rsplit('.', 1)[0]\n"
-                      "    import_name = f'{root_namespace}.{import_name}'"), "_new_import: relative import name changed:\n" + texts[2])
+    rel_body = ("\n    root_namespace = current_namespace.rsplit('.', 1)[0]\n"
+                "    import_name = f'{root_namespace}.{import_name}'")
+    if texts[2] == "if current_namespace != self._main_namespace and '.' in current_namespace:" + rel_body:
+        main_in_root = True       # the main grammar's folder is the root whatever its file name is
+    elif texts[2] == "if '.' in current_namespace:" + rel_body:
+        main_in_root = False
+    else:
+        raise TranslateError("_new_import: relative import name changed:\n" + texts[2])
     i = 3
     normalise = False
     if texts[i] == "import_name = '.'.join((part for part in import_name.split('.') if part))":
@@ -183,12 +188,20 @@ def translate():
     pos = [ic.index(w) if w in ic else -1 for w in want]
     need(-1 not in pos and pos == sorted(pos) and pos[2] == pos[0] + 2, "_init_class: namespace registration changed")
     init = [ast.unparse(s) for s in body_of(find_func(tree, "__init__", CLS))]
+    if main_in_root:
+        need("self._main_namespace = self._namespace_for_file_name(file_name)" in init, "__init__: _main_namespace is not the main grammar's namespace")
+        enter_main = "self._enter_namespace(self._main_namespace)"
+        need(init.index("self._main_namespace = self._namespace_for_file_name(file_name)") < init.index(enter_main) if enter_main in init else False,
+             "__init__: main namespace set-up changed")
+    else:
+        enter_main = "self._enter_namespace(self._namespace_for_file_name(file_name))"
     for w in ("self.namespaces = {}", "self._namespace_stack = []", "self._imported_namespaces = {}",
-              "self._enter_namespace('__base__')", "self._leave_namespace()",
-              "self._enter_namespace(self._namespace_for_file_name(file_name))"):
+              "self._enter_namespace('__base__')", "self._leave_namespace()", enter_main):
         need(w in init, "__init__: missing " + w)
-    need(init.index("self._enter_namespace('__base__')") < init.index("self._leave_namespace()")
-         < init.index("self._enter_namespace(self._namespace_for_file_name(file_name))"), "__init__: namespace set-up order changed")
+    need(init.index("self._enter_namespace('__base__')") < init.index("self._leave_namespace()") < init.index(enter_main),
+         "__init__: namespace set-up order changed")
+    need(sum("_main_namespace" in ast.unparse(n) for n in ast.walk(tree) if isinstance(n, ast.Assign)) == (1 if main_in_root else 0),
+         "_main_namespace is assigned elsewhere")
     base_calls = [x for x in init[init.index("self._enter_namespace('__base__')"):init.index("self._leave_namespace()")] if "_new_class(" in x]
     need(len(base_calls) == 9, "__init__: %d built-in classes, the model has 9" % len(base_calls))
 
@@ -261,6 +274,8 @@ def translate():
         "Definition lookup_steps : list lstep := [%s]." % "; ".join(steps),
         "Definition qualified_split_last : bool := %s." % b2c(split_last),
         "Definition normalise_import : bool := %s." % b2c(normalise),
+        "(* the folder of the MAIN grammar is the root whatever its file name is (dots in the name) *)",
+        "Definition main_in_root : bool := %s." % b2c(main_in_root),
         "Definition register_import_always : bool := %s." % b2c(always),
         "Definition initial_imports : list (list N) := [%s]." % "; ".join(coq_codes(x) for x in initial),
         "Definition fqn_bare : list (list N) := [%s]." % "; ".join(coq_codes(x) for x in bare),
